@@ -55,7 +55,70 @@ func checkC09(c *Check) {
 	forkJoin(c, r, ea, reach)
 	noGlobalWrite(c, r, ea)
 	determinism(c, r, ea, roots)
+	generatorLine(c, r)
 	controlsC09(c)
+}
+
+// generatorLine: R-generator-line — the text generated for a grammar does not
+// depend on how the program was invoked (the spelling of args[0]: ./peg, an
+// absolute path, another file name), only on the arguments that follow. The
+// emitter's source is evaluated on one model grammar with three spellings of
+// the program name; the data handed to the template and the emitted rule text
+// must be identical.
+func generatorLine(c *Check, r *Repo) {
+	rg := findRegion(r)
+	if len(rg.problems) > 0 {
+		return // reported as R-anchor by the checks that own the region
+	}
+	construct := "Compile/the generated text does not depend on the spelling of the program name"
+	run := func(args []string) (string, string) {
+		fm := newFrontModel(r)
+		fm.m.args = args
+		fm.call("AddRule", "S")
+		fm.call("AddDot")
+		fm.call("AddExpression")
+		em := fm.m.runFull(rg)
+		if em.Err != "" {
+			return "", em.Err
+		}
+		var sb strings.Builder
+		sb.WriteString(em.Head + "\x00" + em.Text + "\x00")
+		// every string field of the tree reaches the template
+		for i := 0; i < fm.tree.st.NumFields(); i++ {
+			if s, ok := fm.tree.fields[i].v.(string); ok {
+				sb.WriteString(fm.tree.st.Field(i).Name() + "=" + s + "\x00")
+			}
+		}
+		return sb.String(), ""
+	}
+	rest := []string{"-inline", "-switch", "dir/model.peg"}
+	var ref string
+	var bad []string
+	for i, prog := range []string{"peg", "./peg", "/usr/local/bin/peg", "peg-v2", "tools/PEG.exe"} {
+		got, err := run(append([]string{prog}, rest...))
+		if err != "" {
+			c.Und("R-generator-line", construct, "", err)
+			return
+		}
+		if i == 0 {
+			ref = got
+			if !strings.Contains(got, strings.Join(rest, " ")) {
+				// not demanded by the property: the check below only needs the reference
+				c.Note("generator line", "the arguments after the program name are not recorded verbatim")
+			}
+			continue
+		}
+		if got != ref {
+			d := 0
+			for d < len(got) && d < len(ref) && got[d] == ref[d] {
+				d++
+			}
+			lo := max(0, d-40)
+			bad = append(bad, fmt.Sprintf("invoked as %q the generator produces …%q… where invoked as \"peg\" it produces …%q…", prog, clip(strings.ReplaceAll(got[lo:], "\x00", "|"), 90), clip(strings.ReplaceAll(ref[lo:], "\x00", "|"), 90)))
+		}
+	}
+	c.Decide(len(bad) == 0, "R-generator-line", construct, r.pos(rg.fd.Pos()),
+		"the emitter evaluated on one grammar with the argument lists {peg, ./peg, /usr/local/bin/peg, peg-v2, tools/PEG.exe} + the same arguments: the template data and the emitted text are identical", strings.Join(bad, "; "))
 }
 
 func reachableFrom(ea *effAnalysis, roots []*ssa.Function) []*ssa.Function {
